@@ -380,8 +380,13 @@ class PythonToIrCompiler:
             assert var.lvalue
             lhs = self.builder.emit_load(var.value, var.ty)
             rhs = self.gen_expr(statement.value)
-            op = self.binop_map[type(statement.op)]
-            value = self.emit(ir.Binop(lhs, op, rhs, "augassign", var.ty))
+            if isinstance(statement.op, ast.FloorDiv):
+                value = self.gen_floor_div(statement, lhs, rhs)
+            else:
+                op = self.binop_map[type(statement.op)]
+                value = self.emit(
+                    ir.Binop(lhs, op, rhs, "augassign", var.ty)
+                )
             self.emit(ir.Store(value, var.value))
         else:  # pragma: no cover
             self.not_impl(statement)
@@ -502,8 +507,30 @@ class PythonToIrCompiler:
             op = self.binop_map[op_typ]
         else:
             self.not_impl(expr)
-        value = self.builder.emit_binop(a, op, b, ty)
+        if op_typ is ast.FloorDiv:
+            value = self.gen_floor_div(expr, a, b)
+        else:
+            value = self.builder.emit_binop(a, op, b, ty)
         return value
+
+    def gen_floor_div(self, node, a, b):
+        """Compile a // b: round the quotient towards minus infinity."""
+        if a.ty is not ir.i64:
+            self.error(node, "Floor division is only supported on int.")
+        ty = a.ty
+        quotient = self.builder.emit_binop(a, "/", b, ty)
+        remainder = self.builder.emit_binop(a, "%", b, ty)
+        # IR division truncates. Subtract one when the remainder is non-zero
+        # and its sign differs from the sign of the divisor:
+        zero = self.builder.emit_const(0, ty)
+        sign_shift = self.builder.emit_const(63, ty)
+        differ = self.builder.emit_binop(remainder, "^", b, ty)
+        differ = self.builder.emit_binop(differ, ">>", sign_shift, ty)
+        negated = self.builder.emit_binop(zero, "-", remainder, ty)
+        nonzero = self.builder.emit_binop(remainder, "|", negated, ty)
+        nonzero = self.builder.emit_binop(nonzero, ">>", sign_shift, ty)
+        adjust = self.builder.emit_binop(differ, "&", nonzero, ty)
+        return self.builder.emit_binop(quotient, "+", adjust, ty)
 
     def gen_call(self, expr):
         """Compile call-expression."""
